@@ -65,8 +65,8 @@ def bulk_cover_programs(ctx):
     r = ctx.tlc("ReplicationGen", "Replication.Cover.cfg", workers=1, timeout=600, count_mc=False)
     ps = [p for p in r.printed if isinstance(p, dict) and "keys" in p]
     keys = set(k for p in ps for k in p["keys"])
-    if r.outcome != "ok" or len(keys) < 21:
-        raise vlib.Infra("bulk-delete cover incomplete: %d of 21 situations (%s)\n%s" % (len(keys), r.outcome, r.output[-1500:]))
+    if r.outcome != "ok" or len(keys) < 30:
+        raise vlib.Infra("bulk-delete cover incomplete: %d of 30 situations (%s)\n%s" % (len(keys), r.outcome, r.output[-1500:]))
     chosen, covered = [], set()
     while covered != keys:
         best = max(ps, key=lambda p: (len(set(p["keys"]) - covered), -len(p["calls"])))
